@@ -395,14 +395,13 @@ func (ev *Eval) floatBuiltin(name string, t *wgen.Type, sc *wgen.Type, args []Va
 	switch name {
 	case "abs":
 		out = map1(t, a0, func(x Sc) Sc { return Sc{B: x.B &^ 0x80000000, Tol: x.Tol, Ind: x.Ind} })
-	case "floor":
-		out = exact1(math.Floor)
-	case "ceil":
-		out = exact1(math.Ceil)
-	case "trunc":
-		out = exact1(math.Trunc)
-	case "round":
-		out = exact1(roundHalfEven)
+	case "floor", "ceil", "trunc", "round":
+		out = exact1(map[string]func(float64) float64{"floor": math.Floor, "ceil": math.Ceil, "trunc": math.Trunc, "round": roundHalfEven}[name])
+		for i := range out.S {
+			if bitsf32(out.S[i].B) == 0 {
+				out.S[i].ZS = true
+			}
+		}
 	case "sign":
 		out = exact1(func(x float64) float64 {
 			switch {
@@ -753,7 +752,7 @@ func (ev *Eval) bitcast(t *wgen.Type, a Val) Val {
 			// the sign of a zero produced by round / floor / ceil / trunc / fract and arithmetic on such values is not
 			// pinned down in every target language (GLSL's round(-0.25) may be +0): a negative zero is not observable
 			// through its bits
-			if uint32(s.B) == 0x80000000 {
+			if uint32(s.B) == 0x80000000 || s.ZS {
 				r.Ind = true
 			}
 		}
